@@ -1,17 +1,449 @@
-//! Monitors for C04, C06/C07, C09, C10.
-use crate::log::Stamped;
-use crate::prog::Prog;
-use crate::util::Counts;
+//! Monitors for C04 (untracked re-execution), C06/C07 (identity), C08/C09 (interning), C10 (specify).
 
-pub fn check_untracked(_prog: &Prog, _log: &[Stamped]) -> (Vec<String>, Counts) {
-    (vec![], Counts::default())
+use std::collections::{BTreeMap, BTreeSet, HashMap};
+
+use crate::log::*;
+use crate::mon::{self, Exec};
+use crate::prog::*;
+use crate::util::Counts;
+use crate::world::Ctx;
+
+fn rev_index(log: &[Stamped]) -> Vec<u64> {
+    // revision at each log position
+    let mut rev = 1u64;
+    log.iter()
+        .map(|(_, _, r)| {
+            if let Rec::WriteDone(_, r2) = r {
+                rev = *r2;
+            }
+            rev
+        })
+        .collect()
 }
-pub fn check_identity(_prog: &Prog, _log: &[Stamped]) -> (Vec<String>, Counts) {
-    (vec![], Counts::default())
+
+// ------------------------------------------------------------------ C04
+
+/// In revision R, a top-level request that returned a value and whose from-scratch evaluation
+/// calls Q, where Q's last execution before R read untracked state, must (re-)execute Q
+/// before returning, unless Q already executed in R.
+pub fn check_untracked(_prog: &Prog, log: &[Stamped]) -> (Vec<String>, Counts) {
+    let mut viol = Vec::new();
+    let mut c = Counts::default();
+    let execs = mon::executions(log);
+    let mut by_act: HashMap<(FnK, u32, u16), Vec<&Exec>> = HashMap::new();
+    for e in &execs {
+        if e.value.is_some() {
+            by_act.entry((e.act.f, e.act.node, e.act.arg)).or_default().push(e);
+        }
+    }
+    let revs = rev_index(log);
+    let mut call: Option<(u64, Req)> = None;
+    let mut ret: Option<(u64, bool)> = None;
+    for (i, (clk, _, r)) in log.iter().enumerate() {
+        match r {
+            Rec::Call(_, q) => {
+                call = Some((*clk, q.clone()));
+                ret = None;
+            }
+            Rec::Ret(_, o) => ret = Some((*clk, !matches!(o, Outcome::Panic(..)))),
+            Rec::RefCalls(list) => {
+                let (Some((c0, q)), Some((c1, ok))) = (call.clone(), ret) else {
+                    continue;
+                };
+                if !ok {
+                    continue;
+                }
+                let rnow = revs[i];
+                for (n, a) in list {
+                    let fk = crate::world::fnk_of(_prog.nodes[*n as usize].kind);
+                    let Some(es) = by_act.get(&(fk, *n, *a)) else {
+                        continue;
+                    };
+                    let before = es.iter().filter(|e| e.end < c0).last();
+                    let Some(b) = before else { continue };
+                    if !b.untracked || b.rev >= rnow {
+                        continue;
+                    }
+                    let during = es.iter().find(|e| e.start > c0 && e.end < c1);
+                    match during {
+                        Some(d) => {
+                            c.inc("untracked_reexec");
+                            if d.value == b.value {
+                                c.inc("untracked_equal_reexec");
+                            } else {
+                                c.inc("untracked_changed_reexec");
+                            }
+                        }
+                        None => {
+                            viol.push(format!(
+                                "request {q:?} in rev {rnow} returned without re-executing n{n}({a}) whose last execution (rev {}) read untracked state",
+                                b.rev
+                            ));
+                            return (viol, c);
+                        }
+                    }
+                }
+            }
+            _ => {}
+        }
+    }
+    (viol, c)
 }
-pub fn check_retention(_prog: &Prog, _log: &[Stamped]) -> (Vec<String>, Counts) {
-    (vec![], Counts::default())
+
+// ------------------------------------------------------------------ C06 / C07
+
+pub fn check_identity(prog: &Prog, log: &[Stamped], ctx: &Ctx) -> (Vec<String>, Counts) {
+    let mut viol = Vec::new();
+    let mut c = Counts::default();
+    let ent_ing = *ctx.ent_ing.get().unwrap_or(&u32::MAX);
+    let execs = mon::executions(log);
+    // completed maker executions by end clock
+    let mut maker_done: BTreeMap<u64, &Exec> = BTreeMap::new();
+    for e in &execs {
+        if e.act.f == FnK::Maker && e.value.is_some() {
+            maker_done.insert(e.end, e);
+        }
+    }
+    // identity map of the previous completed execution per maker
+    let mut prev: HashMap<u32, HashMap<(u16, u32), (u32, u32)>> = HashMap::new();
+    // live structs: id -> (maker, ident, occ)
+    let mut live: BTreeMap<(u32, u32), (u32, u16, u32)> = BTreeMap::new();
+    // highest generation seen per slot
+    let mut slot_gen: HashMap<u32, u32> = HashMap::new();
+    // discards still owed: (idx, gen) -> description
+    let mut owed: BTreeMap<(u32, u32), String> = BTreeMap::new();
+    for (clk, _, r) in log {
+        match r {
+            Rec::Ev(Ev::DidDiscard(k)) if k.ing == ent_ing => {
+                live.remove(&(k.idx, k.gener));
+                owed.remove(&(k.idx, k.gener));
+                c.inc("struct_deletions");
+            }
+            Rec::Exit(a, _) if a.f == FnK::Maker => {
+                let Some(e) = maker_done.get(clk) else { continue };
+                let m = a.node;
+                let mut cur: HashMap<(u16, u32), (u32, u32)> = HashMap::new();
+                let mut occ: HashMap<u16, u32> = HashMap::new();
+                let mut ids_here: BTreeSet<(u32, u32)> = BTreeSet::new();
+                for (idx, g, f, _pos) in &e.made {
+                    let o = occ.entry(f[0]).or_insert(0);
+                    let key = (f[0], *o);
+                    *o += 1;
+                    cur.insert(key, (*idx, *g));
+                    if !ids_here.insert((*idx, *g)) {
+                        viol.push(format!(
+                            "maker n{m} created two structs with the same id ({idx},{g}) in one execution"
+                        ));
+                    }
+                    let old = prev.get(&m).and_then(|p| p.get(&key)).copied();
+                    match old {
+                        Some(oid) => {
+                            if oid != (*idx, *g) {
+                                viol.push(format!(
+                                    "maker n{m}: struct with identity (ident={}, occurrence {}) had id {oid:?} in the previous execution and {:?} now",
+                                    key.0, key.1, (*idx, *g)
+                                ));
+                            } else {
+                                c.inc("identity_preserved");
+                            }
+                        }
+                        None => {
+                            // a new identity must not alias a live struct
+                            if let Some(owner) = live.get(&(*idx, *g)) {
+                                if *owner != (m, key.0, key.1) {
+                                    viol.push(format!(
+                                        "maker n{m}: new struct (ident={}, occ {}) received id ({idx},{g}) which is live for {owner:?}",
+                                        key.0, key.1
+                                    ));
+                                }
+                            }
+                            match slot_gen.get(idx) {
+                                Some(pg) if *pg >= *g => {
+                                    viol.push(format!(
+                                        "maker n{m}: slot {idx} reused for a new identity without a newer generation (had {pg}, got {g})"
+                                    ));
+                                }
+                                Some(_) => c.inc("tracked_slot_reuse"),
+                                None => {}
+                            }
+                        }
+                    }
+                    let sg = slot_gen.entry(*idx).or_insert(*g);
+                    *sg = (*sg).max(*g);
+                    live.insert((*idx, *g), (m, key.0, key.1));
+                }
+                // structs of the previous execution that were not recreated must be discarded
+                if let Some(p) = prev.get(&m) {
+                    for (key, id) in p {
+                        if !cur.contains_key(key) && live.contains_key(id) {
+                            owed.insert(
+                                *id,
+                                format!(
+                                    "struct {id:?} (maker n{m}, ident={}, occ {}) was not recreated but no DidDiscard was observed",
+                                    key.0, key.1
+                                ),
+                            );
+                        }
+                    }
+                }
+                prev.insert(m, cur);
+            }
+            Rec::Ret(_, out) => {
+                if let Some((_, msg)) = owed.iter().next() {
+                    viol.push(msg.clone());
+                }
+                if let Outcome::Ents(list) = out {
+                    c.inc("entries_checked");
+                    // `entries()` reports slot positions (ids without generation): compare slots only
+                    let model: Vec<u32> = live.keys().map(|k| k.0).collect();
+                    let got: Vec<u32> = list.iter().map(|k| k.0).collect();
+                    if got != model {
+                        viol.push(format!(
+                            "enumeration of tracked structs returned {list:?}, model of live structs says {model:?}"
+                        ));
+                    }
+                }
+            }
+            _ => {}
+        }
+        if !viol.is_empty() {
+            break;
+        }
+    }
+    let _ = prog;
+    (viol, c)
 }
-pub fn check_specify(_prog: &Prog, _log: &[Stamped]) -> (Vec<String>, Counts) {
-    (vec![], Counts::default())
+
+// ------------------------------------------------------------------ C08 / C09
+
+pub fn check_retention(_prog: &Prog, log: &[Stamped], ctx: &Ctx) -> (Vec<String>, Counts) {
+    let mut viol = Vec::new();
+    let mut c = Counts::default();
+    let sym_ing = *ctx.sym_ing.get().unwrap_or(&[u32::MAX; 5]);
+    let ty_of = |ing: u32| sym_ing.iter().position(|x| *x == ing);
+    let revs_of = |t: usize| Sym::ALL[t].revisions();
+    let revs = rev_index(log);
+    // model durabilities of input fields
+    let mut durs: HashMap<(u32, u32), u8> = HashMap::new();
+    // per thread: stack of frames (only_inputs, min_dur)
+    let mut frames: HashMap<u8, Vec<(bool, u8)>> = HashMap::new();
+    // per type: use revisions
+    let mut uses: Vec<BTreeSet<u64>> = vec![BTreeSet::new(); 5];
+    // per (type, idx, gen): last use revision, definitely-high flag, value
+    #[derive(Default, Clone)]
+    struct Slot {
+        last_use: u64,
+        high: bool,
+        value: Option<u16>,
+    }
+    let mut slots: HashMap<(usize, u32, u32), Slot> = HashMap::new();
+    // per (type, value): current id
+    let mut cur_id: HashMap<(usize, u16), (u32, u32)> = HashMap::new();
+    // reused slots: (type, idx) -> highest generation that has been replaced
+    let mut replaced: HashMap<(usize, u32), u32> = HashMap::new();
+    // last interned event per thread (created?)
+    let mut last_ev_created: HashMap<u8, Option<K>> = HashMap::new();
+    for (i, (_clk, th, r)) in log.iter().enumerate() {
+        let rev = revs[i];
+        match r {
+            Rec::SetField(cell, f, _, d) => {
+                durs.insert((*cell, *f), *d);
+            }
+            Rec::Enter(_) => frames.entry(*th).or_default().push((true, 3)),
+            Rec::Exit(..) | Rec::Unwound(_) => {
+                frames.entry(*th).or_default().pop();
+            }
+            Rec::Read(k, _) => {
+                if let Some(f) = frames.entry(*th).or_default().last_mut() {
+                    match k {
+                        ReadK::In(cc, ff) => {
+                            f.1 = f.1.min(durs.get(&(*cc, *ff)).copied().unwrap_or(0));
+                        }
+                        _ => f.0 = false,
+                    }
+                }
+            }
+            Rec::Ev(Ev::DidIntern(k, _)) => {
+                if let Some(t) = ty_of(k.ing) {
+                    last_ev_created.insert(*th, Some(*k));
+                    let s = slots.entry((t, k.idx, k.gener)).or_default();
+                    s.last_use = s.last_use.max(rev);
+                }
+            }
+            Rec::InternChecked(k, _changed) => {
+                // a dependent checked a dependency on a value of this type: the type was used
+                if let Some(t) = ty_of(k.ing) {
+                    uses[t].insert(rev);
+                    c.inc("interned_dependency_checks");
+                }
+            }
+            Rec::Ev(Ev::DidValidateInterned(k, _)) => {
+                if let Some(t) = ty_of(k.ing) {
+                    let s = slots.entry((t, k.idx, k.gener)).or_default();
+                    s.last_use = s.last_use.max(rev);
+                    c.inc("interned_revalidations");
+                }
+            }
+            Rec::Ev(Ev::DidReuseInterned(k, _)) => {
+                let Some(t) = ty_of(k.ing) else { continue };
+                last_ev_created.insert(*th, Some(*k));
+                c.inc("retention_reuses_checked");
+                let prev_id = (t, k.idx, k.gener.wrapping_sub(1));
+                let Some(r_cfg) = revs_of(t) else {
+                    viol.push(format!(
+                        "interned type {:?} disables collection but slot {} was reused (gen {})",
+                        Sym::ALL[t],
+                        k.idx,
+                        k.gener
+                    ));
+                    break;
+                };
+                let mut u: Vec<u64> = uses[t].iter().copied().filter(|x| *x > 1).collect();
+                if rev > 1 && !u.contains(&rev) {
+                    u.push(rev);
+                }
+                u.sort();
+                if u.len() < r_cfg {
+                    viol.push(format!(
+                        "interned type {:?} (revisions={r_cfg}): slot {} reused in rev {rev} although only {} revisions used the type so far",
+                        Sym::ALL[t],
+                        k.idx,
+                        u.len()
+                    ));
+                    break;
+                }
+                let oldest = u[u.len() - r_cfg];
+                let p = slots.get(&prev_id).cloned().unwrap_or_default();
+                if p.last_use >= oldest {
+                    viol.push(format!(
+                        "interned type {:?} (revisions={r_cfg}): slot {} (value {:?}) reused in rev {rev} although it was used in rev {} and the last {r_cfg} use-revisions start at {oldest} (use revisions {u:?})",
+                        Sym::ALL[t], k.idx, p.value, p.last_use
+                    ));
+                    break;
+                }
+                if p.high {
+                    viol.push(format!(
+                        "interned type {:?}: slot {} (value {:?}) reused in rev {rev} although it was interned by a query whose inputs were all of durability > LOW (or outside any query)",
+                        Sym::ALL[t], k.idx, p.value
+                    ));
+                    break;
+                }
+                replaced.insert((t, k.idx), k.gener.wrapping_sub(1));
+                let s = slots.entry((t, k.idx, k.gener)).or_default();
+                s.last_use = s.last_use.max(rev);
+            }
+            Rec::Interned(t, v, idx, g) => {
+                let t = *t as usize;
+                uses[t].insert(rev);
+                let s = slots.entry((t, *idx, *g)).or_default();
+                s.last_use = s.last_use.max(rev);
+                // functional id <-> value
+                match s.value {
+                    Some(old) if old != *v => {
+                        viol.push(format!(
+                            "interned type {:?}: id ({idx},{g}) denotes value {old} and value {v}",
+                            Sym::ALL[t]
+                        ));
+                        break;
+                    }
+                    _ => s.value = Some(*v),
+                }
+                // durability class at the moment of interning
+                let created = matches!(last_ev_created.insert(*th, None), Some(Some(k)) if k.idx == *idx && k.gener == *g);
+                match frames.entry(*th).or_default().last() {
+                    Some((true, d)) if *d >= 1 => s.high = true,
+                    None if created => s.high = true,
+                    _ => {}
+                }
+                // identity continuity
+                match cur_id.get(&(t, *v)).copied() {
+                    Some(old) if old != (*idx, *g) => {
+                        let was_replaced = replaced.get(&(t, old.0)).is_some_and(|rg| *rg >= old.1);
+                        if !was_replaced {
+                            viol.push(format!(
+                                "interned type {:?}: value {v} changed identity from {old:?} to ({idx},{g}) although its slot was never reclaimed",
+                                Sym::ALL[t]
+                            ));
+                            break;
+                        }
+                        c.inc("interned_reinterned_after_reclaim");
+                    }
+                    Some(_) => c.inc("interned_identity_kept"),
+                    None => {}
+                }
+                cur_id.insert((t, *v), (*idx, *g));
+            }
+            _ => {}
+        }
+    }
+    (viol, c)
+}
+
+// ------------------------------------------------------------------ C10
+
+pub fn check_specify(_prog: &Prog, log: &[Stamped]) -> (Vec<String>, Counts) {
+    let mut viol = Vec::new();
+    let mut c = Counts::default();
+    let revs = rev_index(log);
+    // (idx, gen) -> revision of the latest specification
+    let mut specified_in: HashMap<(u32, u32), u64> = HashMap::new();
+    let mut maker_exec_rev: HashMap<u64, bool> = HashMap::new();
+    for (i, (_clk, _th, r)) in log.iter().enumerate() {
+        let rev = revs[i];
+        match r {
+            Rec::Enter(a) if a.f == FnK::Maker => {
+                maker_exec_rev.insert(rev, true);
+            }
+            Rec::Specified(idx, g, _) => {
+                specified_in.insert((*idx, *g), rev);
+            }
+            Rec::Enter(a) if a.f == FnK::Spec => {
+                if specified_in.get(&(a.key_idx, a.key_gen)) == Some(&rev) {
+                    viol.push(format!(
+                        "q_spec body executed for struct ({},{}) in rev {rev} after a value was specified for it in the same revision",
+                        a.key_idx, a.key_gen
+                    ));
+                    break;
+                }
+                c.inc("spec_computed");
+            }
+            Rec::Read(ReadK::CallOn(FnK::Spec, idx, g), _) => {
+                if specified_in.contains_key(&(*idx, *g)) {
+                    c.inc("spec_served");
+                    if !maker_exec_rev.contains_key(&rev) {
+                        c.inc("spec_served_creator_green");
+                    }
+                }
+            }
+            Rec::Ret(_, Outcome::Val(_)) => {
+                // top-level q_spec requests are counted through the preceding Call
+            }
+            Rec::Call(_, Req::Spec(..)) => c.inc("spec_requests"),
+            _ => {}
+        }
+    }
+    // a top-level Spec request that returned without any body execution of q_spec in between
+    let mut in_spec_req = false;
+    let mut body_ran = false;
+    for (i, (_c, _t, r)) in log.iter().enumerate() {
+        match r {
+            Rec::Call(_, Req::Spec(..)) => {
+                in_spec_req = true;
+                body_ran = false;
+            }
+            Rec::Enter(a) if a.f == FnK::Spec => body_ran = true,
+            Rec::Ret(_, Outcome::Val(v)) if in_spec_req => {
+                in_spec_req = false;
+                if !body_ran && *v != ABSENT {
+                    c.inc("spec_served");
+                    if !maker_exec_rev.contains_key(&revs[i]) {
+                        c.inc("spec_served_creator_green");
+                    }
+                }
+            }
+            Rec::Ret(..) => in_spec_req = false,
+            _ => {}
+        }
+    }
+    (viol, c)
 }
